@@ -75,11 +75,86 @@ def showObsS (c : Cfg) (ord : Order) (outs : List Out) (extra : List (Nat × Str
     | _ => none
   s!"out=[{",".intercalate toks}] resp=[{",".intercalate (resps.map fun (i, r) => s!"{i}={r}")}] pay=[{",".intercalate pays}]"
 
+/-! ### model-branch coverage: which arm of the model each accepted step went through -/
+
+def wKind : WPc → String
+  | .seqPending => "seqPending" | .seqComplete _ => "seqComplete" | .conc _ _ => "conc"
+  | .waiting _ => "waiting" | .ret (.some _) => "ret-some" | .ret .none => "ret-none" | .ret .err => "ret-err"
+
+def pKind : PPc → String
+  | .paying => "paying" | .inWait _ w => "inWait-" ++ wKind w | .retWait _ => "retWait"
+  | .retPay (.ok _) => "retPay-ok" | .retPay .err => "retPay-err"
+
+def pcKind : OPc → String
+  | .fetch => "fetch" | .rWait _ _ _ w => "rWait-" ++ wKind w | .rFailA _ _ _ => "rFailA" | .rFailS _ _ _ => "rFailS"
+  | .waitHtlcs _ => "waitHtlcs" | .gotReady => "gotReady" | .gotParams _ _ => "gotParams" | .addS _ _ _ _ => "addS"
+  | .addA _ _ _ _ => "addA" | .paying _ _ p => "paying-" ++ pKind p | .panicked => "panicked"
+
+def provReplyKind : PReply → String
+  | .pendingIds [] => "pendingIds-empty" | .pendingIds _ => "pendingIds" | .completePres [] => "completePres-empty"
+  | .completePres _ => "completePres" | .waitPre _ => "waitPre" | .waitCode => "waitCode" | .payComplete _ => "payComplete"
+  | .payPending => "payPending" | .payFailed true => "payFailed-warn" | .payFailed false => "payFailed" | .rpcErr => "rpcErr"
+
+def replyKind : SReply → String
+  | .listed none => "listed-absent" | .listed (some (.free, _)) => "listed-free" | .listed (some (.pending _ _, _)) => "listed-pending"
+  | .listed (some (.succeeded _, _)) => "listed-succeeded" | .listErr => "listErr" | .written _ => "written" | .writeErr => "writeErr"
+  | .prov r => provReplyKind r
+
+def respKind : Resp → String
+  | .resolve _ => "resolve" | .fail .tnf => "tnf" | .fail .ttf => "ttf" | .fail (.foei _ _ _) => "foei"
+
+def bpcKind : BPc → String
+  | .succS _ _ => "succS" | .succA _ => "succA" | .failA _ _ => "failA" | .failS _ _ => "failS"
+
+def nextKind : ONext → String
+  | .stay pc => "stay-" ++ pcKind pc | .pay _ _ _ => "pay" | .finish r => "finish-" ++ respKind r
+  | .finishBk r b => "finishBk-" ++ respKind r ++ "-" ++ bpcKind b | .panic => "panic"
+
+def reqKind : SReq → String
+  | .dsList => "dsList" | .dsWriteState (.pending _ _) m => "wsPending-" ++ modeTok' m | .dsWriteState .free m => "wsFree-" ++ modeTok' m
+  | .dsWriteState (.succeeded _) m => "wsSucceeded-" ++ modeTok' m | .dsWriteAttempt _ m => "wa-" ++ modeTok' m
+  | .prov .listPending => "listPending" | .prov .listComplete => "listComplete" | .prov (.waitPart _) => "waitPart" | .prov .pay => "pay"
+where modeTok' : DsMode → String
+  | .createOrReplace => "cor" | .mustCreate => "mc" | .mustReplace none => "mr" | .mustReplace (some _) => "mrGen"
+
+def faultKind : Fault → String
+  | .writeReject => "writeReject" | .writeLostAck => "writeLostAck" | .writeLost => "writeLost" | .readErr => "readErr"
+
+/-- the arm of the model a step goes through (computed in the state BEFORE the step) -/
+def stepTag (c : Cfg) (v : SVariant) (s : SState) : SAct → String
+  | .arrive info _amount _expiry relExp total =>
+    match s.active with
+    | none => "arrive:new" ++ (if decide (relExp < (c.policyDelta : Int)) then ":rel-low" else "") ++ (if !feeOk c total info.amount then ":total-low" else "")
+    | some (e, o) =>
+      "arrive:" ++ pcKind o.pc ++ (if info != e.info then ":info-mismatch" else "") ++ (if decide (relExp < (c.policyDelta : Int)) then ":rel-low" else "")
+        ++ (if !feeOk c total info.amount then ":total-low" else "") ++ (if e.isFailReq then ":already-failing" else "") ++ (if e.isReady then ":already-ready" else "")
+  | .tickMono _ => "tickMono" | .tickWall _ => "tickWall" | .block _ => "block"
+  | .crash => "crash:" ++ (match s.active with | some (_, o) => pcKind o.pc | none => "idle") ++ (if s.bks.isEmpty then "" else "+bk")
+  | .create _ => "create" | .resolve _ .failed => "resolve-failed" | .resolve _ _ => "resolve-complete"
+  | .payEnd r => "payEnd:" ++ provReplyKind r
+  | .serve .owner q => "serve:owner:" ++ reqKind q ++ ">" ++ (match nodeServe s q with | some (_, r) => replyKind r | none => "blocked")
+  | .serve (.bk id) q => "serve:bk:" ++ (match findBk s.bks id with | some b => bpcKind b.pc | none => "?") ++ ">" ++ (match nodeServe s q with | some (_, r) => replyKind r | none => "blocked")
+  | .fault .owner q f => "fault:owner:" ++ faultKind f ++ ":" ++ reqKind q
+  | .fault (.bk _) q f => "fault:bk:" ++ faultKind f ++ ":" ++ reqKind q
+  | .deliver .owner q =>
+    match s.active with
+    | some (_, o) =>
+      match lookupS o.served q with
+      | some r => "deliver:" ++ pcKind o.pc ++ ":" ++ replyKind r ++ ">" ++ nextKind (ownerCont c v s o.pc q r)
+      | none => "deliver:unserved"
+    | none => "deliver:idle"
+  | .deliver (.bk id) _ =>
+    match findBk s.bks id with
+    | some b => "deliverBk:" ++ bpcKind b.pc ++ ":" ++ (match b.served with | some r => replyKind r ++ (match bkCont b.pc r with | some _ => ">next" | none => ">done") | none => "unserved")
+    | none => "deliverBk:?"
+  | .timerFire => "timerFire" | .takeFail => "takeFail" | .takeReady => "takeReady" | .readParams => "readParams" | .readHeight => "readHeight"
+
 structure Cand where
   s : SState
   ord : Order
   outs : List Out
   extra : List (Nat × String) := []     -- answers given outside the per-hash component (non-trampoline HTLCs)
+  tags : List String := []              -- model arms this step went through (coverage)
 
 /-- The harness attaches an amount TLV iff the invoice is amountless or the requested amount differs
     from the invoice's 1 000 000 msat. `none`: the amounts cannot be reconciled (M3 `reconcileAmount`),
@@ -103,7 +178,7 @@ def closure (c : Cfg) (v : SVariant) : Nat → Cand → List Cand
   | fuel + 1, x =>
     let nexts := internalActs.filterMap fun a =>
       match sstep c v x.s a with
-      | some (s', o) => some ({ s := s', ord := x.ord, outs := x.outs ++ o } : Cand)
+      | some (s', o) => some ({ s := s', ord := x.ord, outs := x.outs ++ o, extra := x.extra, tags := x.tags ++ [stepTag c v x.s a] } : Cand)
       | none => none
     if nexts.isEmpty then [x] else nexts.flatMap (closure c v fuel)
 
@@ -161,41 +236,43 @@ def stepCands (c : Cfg) (v : SVariant) (hasAmount : Bool) (cands : List Cand) (t
     match arAmount tok with
     | some a =>
       if (arrivalAmount hasAmount a).isNone then
-        return cands.map fun x => { x with s := { x.s with nextInv := x.s.nextInv + 1 }, outs := [], extra := [(x.s.nextInv, "cont:-")] }
+        return cands.map fun x => { x with s := { x.s with nextInv := x.s.nextInv + 1 }, outs := [], extra := [(x.s.nextInv, "cont:-")], tags := ["arrive:not-trampoline"] }
     | none => pure ()
   for x in cands do
     let acts ← tokenActs hasAmount x tok
     for a in acts do
       match sstep c v x.s a with
       | some (s', o) =>
-        let x' : Cand := { s := s', ord := x.ord, outs := o }
+        let x' : Cand := { s := s', ord := x.ord, outs := o, tags := [stepTag c v x.s a] }
         out := out ++ (closure c v 6 x').map fun y => { y with ord := updateOrder v y.s y.ord }
       | none => pure ()
   pure out
 
 def splitBar (s : String) : List String := (s.splitOn " | ")
 
-def runSys (c : Cfg) (v : SVariant) (hasAmount : Bool) : List Cand → List String → List String → Nat → String → String
-  | _, [], _, _, acc => acc
-  | _, _ :: _, [], _, acc => acc ++ " | <missing observation>"
-  | cands, tok :: toks, ob :: obs, n, acc =>
+def runSys (c : Cfg) (v : SVariant) (hasAmount : Bool) : List Cand → List String → List String → Nat → String → List String → String × List String
+  | _, [], _, _, acc, tg => (acc, tg)
+  | _, _ :: _, [], _, acc, tg => (acc ++ " | <missing observation>", tg)
+  | cands, tok :: toks, ob :: obs, n, acc, tg =>
     match stepCands c v hasAmount cands tok with
-    | none => acc ++ s!" | <unparsable action {tok}>"
+    | none => (acc ++ s!" | <unparsable action {tok}>", tg)
     | some nexts =>
       let good := nexts.filter fun x => showObsS c x.ord x.outs x.extra == ob
-      if good.isEmpty then
+      match good with
+      | [] =>
         let alt := match nexts with
           | [] => s!"<model cannot take step {n} `{tok}`>"
           | x :: _ => s!"<step {n} `{tok}`: model {showObsS c x.ord x.outs x.extra}>"
-        acc ++ " | " ++ alt
-      else runSys c v hasAmount good toks obs (n + 1) (acc ++ " | " ++ ob)
+        (acc ++ " | " ++ alt, tg)
+      | g :: _ => runSys c v hasAmount good toks obs (n + 1) (acc ++ " | " ++ ob) (tg ++ g.tags)
 
-/-- returns the model's observation string: equal to `observed` iff the trace is accepted -/
-def evalSystem (ws : List String) (observed : String) : Option String :=
+/-- returns the model's observation string (equal to `observed` iff the trace is accepted) and the
+    model arms the accepted steps went through -/
+def evalSystemFull (ws : List String) (observed : String) : Option (String × List String) :=
   match ws with
   | "sy" :: hdr :: acts =>
     match (hdr.splitOn ",").mapM String.toNat? with
-    | some [cl, pol, base, ppm, mpp, open_] =>
+    | some (cl :: pol :: base :: ppm :: mpp :: open_ :: _) =>     -- an optional 7th field (second, frozen hash) does not concern this component
       let c : Cfg := { cltvDelta := cl, policyDelta := pol, feeBase := base, feePpm := ppm, mppTimeout := mpp }
       let acts := acts.filter (· ≠ "-")
       match splitBar observed with
@@ -203,9 +280,11 @@ def evalSystem (ws : List String) (observed : String) : Option String :=
       | ob0 :: obs =>
         let x0 : Cand := { s := { SState.init with height := 1000 }, ord := [], outs := [] }
         let first := showObsS c [] []
-        if first != ob0 then some first
-        else some (runSys c SVariant.current (open_ == 0) [x0] acts obs 1 first)
+        if first != ob0 then some (first, [])
+        else some (runSys c SVariant.current (open_ == 0) [x0] acts obs 1 first [])
     | _ => none
   | _ => none
+
+def evalSystem (ws : List String) (observed : String) : Option String := (evalSystemFull ws observed).map (·.1)
 
 end Driver
